@@ -15,7 +15,7 @@ def check_type(imports, lemma):
     p = subprocess.run(['coqtop', '-Q', COQ, 'ML', '-w', '-notation-overridden', '-quiet'], input=src, capture_output=True, text=True, timeout=300)
     out = p.stdout
     # the answer of Check: "<lemma>\n     : type"
-    m = re.search(r'\n?' + re.escape(lemma.split('.')[-1]) + r'\s*\n?\s*:\s(.*?)(?:\n\n|\nCoq <|\Z)', out, re.S)
+    m = re.search(r'\n?@?' + re.escape(lemma.lstrip('@').split('.')[-1]) + r'\s*\n?\s*:\s(.*?)(?:\n\n|\nCoq <|\Z)', out, re.S)
     if not m:
         raise RuntimeError('cannot get the type of %s:\n%s\n%s' % (lemma, out[-2000:], p.stderr[-2000:]))
     t = m.group(1)
@@ -32,10 +32,10 @@ def main():
     names = []
     for it in items:
         lemma, _, nm = it.partition('=')
-        nm = nm or lemma.split('.')[-1]
+        nm = nm or lemma.lstrip('@').split('.')[-1]
         t = check_type(imports_txt, lemma)
         name = '%s_%s' % (P, nm)
-        out.append('Theorem %s :\n  %s.\nProof. exact %s. Qed.\n' % (name, t.replace('\n', '\n  '), lemma))
+        out.append('Theorem %s :\n  %s.\nProof. exact %s. Qed.\n' % (name, t.replace('\n', '\n  '), lemma if not lemma.startswith('@') else '(' + lemma + ')'))
         names.append(name)
     out.append('')
     for n in names:
